@@ -1,1318 +1,84 @@
-"""C11 - k-d tree queries are exact and construction always terminates (structural clauses)."""
+"""C11 - k-d tree queries are exact and construction always terminates (structural clauses).
+
+The obligations are decided on the *symbolic paths* of KDTree.__init__ / query / query_radius / AABB.distance (msa/rules/hg_symex.py): private
+helpers are executed in line, local names and attribute stores are resolved along each path, loops are taken zero times and once, literal
+iterables are unrolled.  A rule reports a violation only for a recognised construct that contradicts it; a shape it cannot read is `undecided`."""
 from __future__ import annotations
-import ast
-from .. import au, sym, order
+import ast, traceback
+from .. import au
 from ..core import AnalysisError
 from ..rules import c1120_util as U
+from ..rules import hg_kd_build, hg_kd_query, hg_kd_misc
 
 KD = "spatial.kdtree"
 BOX = "geometry.aabb"
-GEO = "geometry.geometry"
 PQM = "utils.priority_queue"
 
 EXPLANATION = (
-    "Static skeleton obligations (R-SKEL) of the k-d tree: the construction work-list has a leaf-finalising path that "
-    "does not require size <= max_leaf_size (termination on unsplittable sets), the node table stays indexed by node id "
-    "(FIFO work-list, one append per popped element, fresh ids), the two children receive complementary masks of the "
-    "same index array and boxes cut at the same axis/value on fresh copies of the parent's corners; in the k-NN query the "
-    "child-skipping decision depends on k through assignment-only data dependence and is sound under every ordering, the "
-    "candidate heap is a bounded max-heap popped n_found times and reversed; the radius query filters with d <= r and prunes "
-    "only boxes with distance > r; the box distance is the clamped component-wise gap. Decides structural necessary "
-    "conditions read from the AST only; numerics of distances and ties are not decided.")
+    "Static skeleton obligations (R-SKEL) of the k-d tree, decided on symbolic paths of the constructor and of the two queries (helpers of the class "
+    "executed in line, names resolved per path): children are queued only under conditions implying that both parts of the split are non-empty "
+    "(termination on unsplittable sets), the node table stays indexed by node id (FIFO work-list, one entry per popped element, fresh consecutive ids), "
+    "the two children receive complementary mask selections of the popped leaf's index array and boxes cut at the axis / value the points were split at, "
+    "on fresh copies of the parent's corners; in the k-NN query the pruning bound is finite only on paths whose conditions imply that k candidates are held "
+    "and a child closer than the bound is never skipped, the candidate heap is a max-heap on distance kept in lock-step with its counter, trimmed while "
+    "held > k, popped `held` times and reversed; the radius query leaves a node unexplored only when its box distance exceeds r and keeps d <= r; the box "
+    "distance is the norm of the clamped component-wise gap. Decides structural necessary conditions read from the AST only; numerics are not decided.")
 
 RULES = {
-    "C11-T1": "the construction work-list has a path that finalises a leaf under a condition other than size <= max_leaf_size, "
-              "taken whenever one side of the split is empty (a set of identical points can never be split)",
-    "C11-I1": "the node table is indexed by node id: ids are fresh per created leaf, the construction work-list is FIFO, every "
-              "popped element appends exactly one entry carrying its own id, children are queued in creation order; is_leaf tests the Leaf class; "
+    "C11-T1": "the construction loop queues the children of a split only under conditions implying that both parts are non-empty (a set of identical "
+              "points can never be split: the leaf must be finalised), and never re-queues the popped leaf",
+    "C11-I1": "the node table is indexed by node id: ids are fresh and consecutive per created leaf, the construction work-list is FIFO, every "
+              "popped element adds exactly one entry carrying its own id, children are queued in creation order; is_leaf tests the Leaf class; "
               "queries start from the root id",
-    "C11-K1": "the decision to skip a child in `query` depends on k (closure of the names of the guarding tests under assignments only), "
-              "the pruning bound is finite only when k candidates are held, and a child whose box is closer than the bound is never skipped",
-    "C11-S1": "both children of a visited inner node are considered, each paired with the distance of its own box to the query point; "
-              "every point of a visited leaf is examined",
-    "C11-P1": "the two children receive extract(mask, idx) and extract(~mask, idx) of the same idx and mask computed on the coordinates of idx "
-              "along the split axis; children boxes are the parent's box cut at the same axis / split value, on the matching side; the root holds every point",
-    "C11-O1": "leaf test is size <= max_leaf_size; radius filter keeps d <= r and prunes only box distance > r (same r); "
-              "the heap is trimmed exactly while n_found > k",
-    "C11-H1": "candidates are pushed with priority -distance (max-heap on distance) in lock-step with the counter, trimmed in lock-step, "
-              "and the result pops the heap exactly n_found times, reads the payload field and reverses",
+    "C11-K1": "in `query` the pruning bound is finite only on paths whose conditions imply held >= k, it is -front.priority of the candidate heap "
+              "(reset for every query), and a child whose box is closer than the bound is never skipped",
+    "C11-S1": "both children of a visited inner node can be queued, each judged by the distance of its own box to the query point; "
+              "every point of a visited leaf is examined; an inner node records both children",
+    "C11-P1": "the two children receive complementary mask selections of the popped leaf's index array, the mask being computed on the coordinates of those "
+              "indices along the split axis; children boxes are the parent's box cut at the same axis / split value, on the matching side (or the bounding "
+              "box of their own points); the root holds every point in an all-containing box",
+    "C11-O1": "a leaf is split only when larger than max_leaf_size; the radius query keeps d <= r and leaves a node unexplored only when box distance > r; "
+              "the heap is trimmed exactly while held > k",
+    "C11-H1": "candidates are pushed with priority -distance (max-heap on distance) in lock-step with the counter, "
+              "and the result pops the heap `held` times (or until empty), reads the payload field and reverses",
     "C11-Q1": "the candidate heap of `query` is the package PriorityQueue, used only through push / pop / get / front / empty; that queue keeps its "
               "list through heapq only (push = heappush of PriorityItem(payload, priority), pop = one heappop, front = data[0]) and orders items by "
               "`priority <` alone (strict, no tie-break on other fields) - C11-H1 relies on the front being the furthest candidate",
-    "C11-A1": "every array that receives a subscript store in the constructor is a fresh copy (AABB keeps views of its corners)",
-    "C11-D1": "AABB.distance is the norm of max(mini - pt, pt - maxi, 0) and uses the same default metric as the point distance",
+    "C11-A1": "every corner array that receives a subscript store in the constructor is a fresh copy (AABB keeps views of its corners)",
+    "C11-D1": "AABB.distance is the norm of max(mini - pt, pt - maxi, 0) on every path and uses the same default metric as the point distance",
 }
 
 ASSUMPTIONS = [
     "numpy semantics of np.extract / boolean masks / np.copy / np.maximum as documented",
     "collections.deque: append pushes right, popleft pops left; heapq is a min-heap",
+    "loops are analysed on their first / an arbitrary single iteration (zero-or-one unrolling of the symbolic paths)",
 ]
 
 
-# ===================================================================== helpers
-class WorkList:
-    def __init__(self, loop, q, pop_call, popped):
-        self.loop, self.q, self.pop_call, self.popped = loop, q, pop_call, popped
-
-    def pushes(self, node):
-        return [c for c in au.calls(node) if isinstance(c.func, ast.Attribute) and isinstance(c.func.value, ast.Name)
-                and c.func.value.id == self.q and c.func.attr in ("append", "appendleft", "extend", "extendleft", "insert")]
-
-    def is_fifo(self):
-        a = self.pop_call.func.attr
-        pop_left = a == "popleft" or (a == "pop" and len(self.pop_call.args) == 1 and au.const(self.pop_call.args[0]) == 0)
-        pop_right = a == "pop" and not self.pop_call.args
-        sides = set()
-        for c in self.pushes(self.loop):
-            if c.func.attr in ("append", "extend"):
-                sides.add("right")
-            elif c.func.attr in ("appendleft", "extendleft"):
-                sides.add("left")
-            else:
-                sides.add("?")
-        if pop_left:
-            return sides == {"right"}
-        if pop_right:
-            return sides == {"left"}
-        return False
+def guarded(ctx, rule, modname, qual, f, *a):
+    """an internal failure of the analysis is an undecided obligation, never a violation and never a pass"""
+    try:
+        return f(ctx, *a)
+    except AnalysisError:
+        raise
+    except Exception as e:          # pragma: no cover
+        site = ctx.site(modname, qual)
+        ctx.undecided(rule, site, f"the analysis of {qual} failed internally ({type(e).__name__})", traceback.format_exc(limit=3)[-300:])
+        return None
 
 
-def find_worklist(fn):
-    for st in au.stmts(fn.body):
-        if not isinstance(st, ast.While):
-            continue
-        for q in sorted(au.names(st.test)):
-            for s in au.stmts(st.body):
-                if isinstance(s, ast.Assign) and len(s.targets) == 1 and isinstance(s.targets[0], ast.Name) \
-                        and isinstance(s.value, ast.Call) and isinstance(s.value.func, ast.Attribute) \
-                        and isinstance(s.value.func.value, ast.Name) and s.value.func.value.id == q \
-                        and s.value.func.attr in ("pop", "popleft"):
-                    return WorkList(st, q, s.value, s.targets[0].id)
-    return None
-
-
-def pos(node):
-    return (getattr(node, "lineno", 0), getattr(node, "col_offset", 0))
-
-
-def dataclass_fields(cls):
-    return [st.target.id for st in cls.body if isinstance(st, ast.AnnAssign) and isinstance(st.target, ast.Name)]
-
-
-def bind_args(call, names, skip=0):
-    """positional/keyword arguments of `call` mapped to parameter names."""
-    out = {}
-    for i, a in enumerate(call.args):
-        if isinstance(a, ast.Starred):
-            return out
-        if i + skip < len(names):
-            out[names[i + skip]] = a
-    for kw in call.keywords:
-        if kw.arg:
-            out[kw.arg] = kw.value
-    return out
-
-
-def is_self_call(call, name):
-    return isinstance(call, ast.Call) and isinstance(call.func, ast.Attribute) and au.is_self_attr(call.func, name)
-
-
-def node_of(b, expr, at, popped):
-    """does `expr` resolve to self.nodes[<popped>] ?"""
-    e = b.resolve(expr, at=at, keep=(popped,))
-    return isinstance(e, ast.Subscript) and au.is_self_attr(e.value, "nodes") and isinstance(e.slice, ast.Name) \
-        and e.slice.id == popped
-
-
-def generic_sym(mapping):
-    def f(node):
-        s = au.src(node)
-        if s in mapping:
-            return mapping[s]
-        if isinstance(node, (ast.BinOp,)):
-            raise order.Unsupported(f"arithmetic `{s}` inside an ordering predicate")
-        return s
-    return f
-
-
-def is_inf(e):
-    if isinstance(e, ast.Call) and au.call_tail(e) == "float" and len(e.args) == 1 and \
-            isinstance(e.args[0], ast.Constant) and str(e.args[0].value).lower().lstrip("+") in ("inf", "infinity"):
-        return True
-    c = au.chain(e)
-    return bool(c) and c[-1] in ("inf", "Inf", "infty", "Infinity", "PINF") and c[0] in ("np", "numpy", "math", "inf")
-
-
-def grid_witness(code, spec, names, lo=0, hi=5, mode="equiv"):
-    """Evaluate the *AST* `code` (comparisons / and / or / not over integer names, + - * and constants) against the python
-    predicate `spec(env)` for every integer assignment of `names` in [lo, hi]; leaves that are not integer expressions over
-    `names` are free booleans (both values are tried).  mode: 'equiv' | 'code_implies_spec'.  Returns a witness env or None.
-    Raises order.Unsupported when a numeric operand cannot be evaluated."""
-    import itertools
-    free = []
-
-    def num(e, env):
-        if isinstance(e, ast.Constant) and isinstance(e.value, (int, float)) and not isinstance(e.value, bool):
-            return e.value
-        if isinstance(e, ast.Name) and e.id in env:
-            return env[e.id]
-        if isinstance(e, ast.UnaryOp) and isinstance(e.op, ast.USub):
-            return -num(e.operand, env)
-        if isinstance(e, ast.BinOp) and isinstance(e.op, (ast.Add, ast.Sub, ast.Mult)):
-            a, c = num(e.left, env), num(e.right, env)
-            return a + c if isinstance(e.op, ast.Add) else a - c if isinstance(e.op, ast.Sub) else a * c
-        raise order.Unsupported(f"`{au.src(e)}` is not an integer expression over {sorted(names)}")
-
-    def collect(e):
-        if isinstance(e, ast.BoolOp):
-            for v in e.values:
-                collect(v)
-        elif isinstance(e, ast.UnaryOp) and isinstance(e.op, ast.Not):
-            collect(e.operand)
-        elif isinstance(e, ast.Compare) and all(type(o) in order.CMP for o in e.ops):
-            pass
-        elif isinstance(e, ast.Constant) and isinstance(e.value, bool):
-            pass
-        else:
-            k_ = au.src(e)
-            if k_ not in free:
-                free.append(k_)
-
-    def ev(e, env, fenv):
-        if isinstance(e, ast.BoolOp):
-            vs = [ev(v, env, fenv) for v in e.values]
-            return all(vs) if isinstance(e.op, ast.And) else any(vs)
-        if isinstance(e, ast.UnaryOp) and isinstance(e.op, ast.Not):
-            return not ev(e.operand, env, fenv)
-        if isinstance(e, ast.Compare) and all(type(o) in order.CMP for o in e.ops):
-            left = num(e.left, env)
-            for o, c in zip(e.ops, e.comparators):
-                right = num(c, env)
-                if not order.CMP[type(o)](left, right):
-                    return False
-                left = right
-            return True
-        if isinstance(e, ast.Constant) and isinstance(e.value, bool):
-            return e.value
-        return fenv[au.src(e)]
-    collect(code)
-    names = list(names)
-    n_env = 0
-    for vals in itertools.product(range(lo, hi + 1), repeat=len(names)):
-        env = dict(zip(names, vals))
-        for fv in itertools.product((False, True), repeat=len(free)):
-            fenv = dict(zip(free, fv))
-            a, b_ = ev(code, env, fenv), bool(spec(env))
-            n_env += 1
-            if (mode == "equiv" and a != b_) or (mode == "code_implies_spec" and a and not b_):
-                env = dict(env)
-                env.update(fenv)
-                return env, n_env
-    return None, n_env
-
-
-# ===================================================================== run
 def run(ctx):
-    leafmap = new_leaf(ctx)
-    split = split_points(ctx)
-    root_id = constructor(ctx, leafmap, split)
-    is_leaf(ctx)
-    knn(ctx, root_id)
-    radius(ctx, root_id)
-    box_distance(ctx)
-    heap_q1(ctx)
-
-
-# ------------------------------------------------------------ KDTree._new_leaf
-def new_leaf(ctx):
-    """C11-I1 fresh ids; returns {Leaf field -> index of the _new_leaf parameter that feeds it}."""
     repo = ctx.repo
-    fn = repo.func(KD, "KDTree._new_leaf")
-    leaf_cls = repo.cls(KD, "KDTree.Leaf")
-    site = ctx.site(KD, fn)
-    fields = dataclass_fields(leaf_cls)
-    params = au.params(fn, skip_self=True)
-    ctor = [c for c in au.calls(fn) if au.call_tail(c) == "Leaf"]
-    if len(ctor) != 1:
-        ctx.fail("C11-I1", site, "construction of a KDTree.Leaf in _new_leaf not found", f"{len(ctor)} Leaf(...) calls")
-        return None
-    args = bind_args(ctor[0], fields)
-    idexpr = args.get("id")
-    counter = idexpr.attr if idexpr is not None and au.is_self_attr(idexpr) else None
-    incs = []
-    for st in au.stmts(fn.body):
-        if isinstance(st, ast.AugAssign) and au.is_self_attr(st.target, counter) and isinstance(st.op, ast.Add) \
-                and au.const(st.value) == 1:
-            incs.append(st)
-        elif isinstance(st, ast.Assign) and len(st.targets) == 1 and au.is_self_attr(st.targets[0], counter):
-            try:
-                p = sym.to_poly(st.value, atom_of=lambda e: "C" if au.is_self_attr(e, counter) else None)
-                if p == sym.Poly.atom("C") + 1:
-                    incs.append(st)
-                else:
-                    incs.append(None)
-            except Exception:
-                incs.append(None)
-    ok = counter is not None and len(incs) == 1 and incs[0] is not None and any(incs[0] is s for s in fn.body) \
-        and pos(incs[0]) > pos(ctor[0])
-    ctx.check(ok, "C11-I1", site,
-              "_new_leaf does not give the new leaf the current value of the id counter and then advance the counter by one, unconditionally",
-              "node ids must be fresh and consecutive: self.nodes[id] is how every query reaches a node",
-              note=f"fresh id from self.{counter}")
-    mapping = {}
-    for f, a in args.items():
-        if isinstance(a, ast.Name) and a.id in params:
-            mapping[f] = params.index(a.id)
-    ctx.check({"split_axis", "points"} <= set(mapping) and len(set(mapping.values())) == len(mapping), "C11-I1", site,
-              f"_new_leaf forwards its parameters to Leaf fields as {sorted(mapping.items())} (split_axis / points not both fed by distinct parameters)",
-              "the leaf must record the axis it will be split along and the indices of its points",
-              note=f"Leaf fields fed by parameters {sorted(mapping.items())}")
-    rets = [st for st in au.stmts(fn.body) if isinstance(st, ast.Return)]
-    b = sym.Bindings(fn)
-    ok = bool(rets) and all(r.value is not None and b.resolve(r.value, at=r) is not None and
-                            au.same(b.resolve(r.value, at=r), ctor[0]) for r in rets)
-    ctx.check(ok, "C11-I1", site, "_new_leaf does not return the leaf it created", "the caller queues the returned leaf")
-    return {"map": mapping, "counter": counter, "params": params}
-
-
-# --------------------------------------------------------- KDTree._split_points
-def split_points(ctx):
-    repo = ctx.repo
-    fn = repo.func(KD, "KDTree._split_points")
-    site = ctx.site(KD, fn)
-    params = au.params(fn, skip_self=True)
-    if len(params) < 2:
-        ctx.fail("C11-P1", site, "_split_points(idx, axis) signature not found", "")
-        return None
-    p_idx, p_axis = params[0], params[1]
-    rets = [st for st in au.stmts(fn.body) if isinstance(st, ast.Return)]
-    if len(rets) != 1 or not isinstance(rets[0].value, ast.Tuple) or len(rets[0].value.elts) != 3:
-        ctx.fail("C11-P1", site, "_split_points does not end in a single `return value, part, part`",
-                 "the constructor unpacks (split value, low part, high part)")
-        return None
-    ret = rets[0]
-
-    def single(name, what):
-        bs = U.bindings_of(fn, name)
-        if len(bs) == 1 and bs[0][2] is None and not isinstance(bs[0][1], ast.AugAssign):
-            return bs[0]
-        return None
-
-    def part(e):
-        """(mask expr, negated?, idx expr) of np.extract(mask, idx) / idx[mask]"""
-        if isinstance(e, ast.Name):
-            s = single(e.id, "part")
-            if s is None:
-                return None
-            e = s[1]
-        m = i = None
-        if isinstance(e, ast.Call) and au.call_tail(e) == "extract" and len(e.args) == 2:
-            m, i = e.args
-        elif isinstance(e, ast.Call) and au.call_tail(e) == "compress" and len(e.args) == 2 and isinstance(e.func, ast.Attribute) \
-                and au.chain(e.func) and au.chain(e.func)[0] in ("np", "numpy"):
-            m, i = e.args
-        elif isinstance(e, ast.Subscript) and isinstance(e.value, ast.Name):
-            m, i = e.slice, e.value
-        if m is None:
-            return None
-        neg = False
-        while True:
-            if isinstance(m, ast.UnaryOp) and isinstance(m.op, ast.Invert):
-                m, neg = m.operand, not neg
-            elif isinstance(m, ast.Call) and au.call_tail(m) == "logical_not" and len(m.args) == 1:
-                m, neg = m.args[0], not neg
-            else:
-                break
-        return m, neg, i
-
-    parts = [part(ret.value.elts[1]), part(ret.value.elts[2])]
-    if None in parts:
-        ctx.fail("C11-P1", site, "the two returned parts are not np.extract(mask, idx) / idx[mask] selections",
-                 "every point of the split leaf must land in exactly one child")
-        return None
-    (m1, n1, i1), (m2, n2, i2) = parts
-    ok = au.same(m1, m2) and n1 != n2 and isinstance(i1, ast.Name) and isinstance(i2, ast.Name) \
-        and i1.id == p_idx and i2.id == p_idx and not [x for x in U.bindings_of(fn, p_idx)]
-    ctx.check(ok, "C11-P1", site,
-              f"the two parts are selected by `{'~' if n1 else ''}{au.src(m1)}` on {au.src(i1)} and `{'~' if n2 else ''}{au.src(m2)}` on {au.src(i2)}: "
-              f"not complementary masks of the same index array `{p_idx}`",
-              "a point selected by neither mask is lost, a point selected by both is stored in two leaves",
-              note="complementary masks of the same index array")
-    # the mask itself
-    mask = m1
-    mask_stmt = None
-    if isinstance(mask, ast.Name):
-        s = single(mask.id, "mask")
-        if s is not None:
-            mask_stmt, mask = s[0], s[1]
-    cmp_ok = isinstance(mask, ast.Compare) and len(mask.ops) == 1 and isinstance(mask.ops[0], (ast.Lt, ast.LtE, ast.Gt, ast.GtE))
-    if not cmp_ok:
-        ctx.fail("C11-P1", site, "the partition mask is not a single comparison `coordinates <op> pivot`",
-                 f"mask is `{au.src(mask)}`")
-        return None
-    left, right, op = mask.left, mask.comparators[0], mask.ops[0]
-
-    def is_coords(e):
-        if isinstance(e, ast.Name):
-            s = single(e.id, "coords")
-            if s is None:
-                return False
-            e = s[1]
-        # self.points[idx, axis]  |  self.points[idx][:, axis]
-        if isinstance(e, ast.Subscript) and au.is_self_attr(e.value, "points") and isinstance(e.slice, ast.Tuple) \
-                and len(e.slice.elts) == 2:
-            a, c = e.slice.elts
-            return isinstance(a, ast.Name) and a.id == p_idx and isinstance(c, ast.Name) and c.id == p_axis
-        if isinstance(e, ast.Subscript) and isinstance(e.value, ast.Subscript) and au.is_self_attr(e.value.value, "points") \
-                and isinstance(e.value.slice, ast.Name) and e.value.slice.id == p_idx and isinstance(e.slice, ast.Tuple) \
-                and len(e.slice.elts) == 2 and isinstance(e.slice.elts[0], ast.Slice) and isinstance(e.slice.elts[1], ast.Name) \
-                and e.slice.elts[1].id == p_axis:
-            return True
-        return False
-
-    flipped = False
-    if is_coords(right) and not is_coords(left):
-        left, right, flipped = right, left, True
-    ctx.check(is_coords(left) and not au.names(right) & {p_idx}, "C11-P1", site,
-              f"the mask `{au.src(mask)}` does not compare self.points[{p_idx}, {p_axis}] (the coordinates of the leaf's own points along the split axis) with the pivot",
-              "a mask computed on other rows / another axis is not aligned with the index array it selects from",
-              note="mask computed on self.points[idx, axis]")
-    lt = isinstance(op, (ast.Lt, ast.LtE)) != flipped       # mask true <=> coordinate below pivot
-    pivot = right
-    v = ret.value.elts[0]
-    later = []
-    if isinstance(pivot, ast.Name) and mask_stmt is not None:
-        later = [s for s, _, _ in U.bindings_of(fn, pivot.id) if pos(s) > pos(mask_stmt)]
-    elif isinstance(pivot, ast.Name):
-        later = [s for s, _, _ in U.bindings_of(fn, pivot.id) if pos(s) > pos(au.enclosing_stmt(m1))]
-    ctx.check(au.same(v, pivot) and not later, "C11-P1", site,
-              f"the returned split value `{au.src(v)}` is not the pivot `{au.src(pivot)}` the mask compares against",
-              "the children boxes are cut at the returned value: it must separate the two parts",
-              note="returned split value is the compared pivot")
-    # part returned at index 1 is the low side iff (mask is `below`) xor negated
-    low_index = 1 if (lt != n1) else 2
-    return {"low_index": low_index}
-
-
-# ------------------------------------------------------------ KDTree.__init__
-def constructor(ctx, leafmap, split):
-    repo = ctx.repo
-    fn = repo.func(KD, "KDTree.__init__")
-    site = ctx.site(KD, fn)
-    b = sym.Bindings(fn)
-    W = find_worklist(fn)
-    if W is None:
-        ctx.fail("C11-T1", site, "construction work-list loop (`while queue: leaf = queue.pop...`) not found", "")
-        return None
-    loop, popped = W.loop, W.popped
-    params = au.params(fn, skip_self=True)
-    root_id = None
-
-    # ---------------- leaf test (C11-O1a) and finalising paths (C11-T1)
-    tests = [st for st in au.stmts(loop.body) if isinstance(st, ast.If) and "max_leaf_size" in au.names(st.test)]
-    if "max_leaf_size" not in params or len(tests) != 1:
-        ctx.fail("C11-O1", site, "leaf test on max_leaf_size not found in the construction loop",
-                 f"{len(tests)} tests mention max_leaf_size")
-        return None
-    leaf_if = tests[0]
-    try:
-        all_paths = U.paths(loop.body)
-    except order.Unsupported as ex:
-        raise AnalysisError(f"C11: construction loop too branchy for path enumeration ({ex})")
-
-    def finalising(p):
-        return not any(c for st in p.stmts for c in W.pushes(st if not isinstance(st, U.LOOPS) else ast.Pass()))
-
-    # a path stores inner-loop headers as stmts: pushes are looked up in simple statements only
-    fin = [p for p in all_paths if finalising(p)]
-    fin_true = [p for p in all_paths if p.has_guard(leaf_if.test, True)]
-    fin_false = [p for p in all_paths if p.has_guard(leaf_if.test, False)]
-    if fin_true and all(finalising(p) for p in fin_true):
-        leaf_pol = True
-    elif fin_false and all(finalising(p) for p in fin_false):
-        leaf_pol = False
-    else:
-        ctx.fail("C11-O1", site, "neither branch of the leaf test finalises the popped leaf on all of its paths", "")
-        return None
-    # `size <= max_leaf_size or <other reason to stop>`: only the disjuncts on max_leaf_size are the leaf criterion
-    crit, extra_disjuncts = leaf_if.test, []
-    if leaf_pol and isinstance(leaf_if.test, ast.BoolOp) and isinstance(leaf_if.test.op, ast.Or):
-        mine = [v for v in leaf_if.test.values if "max_leaf_size" in au.names(v)]
-        extra_disjuncts = [v for v in leaf_if.test.values if "max_leaf_size" not in au.names(v)]
-        crit = mine[0] if len(mine) == 1 else ast.BoolOp(op=ast.Or(), values=mine)
-    size_forms = {f"{popped}.size": "size", f"len({popped}.points)": "size", f"{popped}.points.size": "size",
-                  f"{popped}.points.shape[0]": "size", "max_leaf_size": "max_leaf_size"}
-    try:
-        wit, n = order.compare(crit, "size <= max_leaf_size", generic_sym(size_forms), negate_code=not leaf_pol)
-        extra = set(order.Pred(generic_sym(size_forms)).collect(crit).symbols) - {"size", "max_leaf_size"}
-        ctx.check(wit is None and not extra, "C11-O1", ctx.site(KD, fn, leaf_if),
-                  f"leaf test `{au.src(crit)}` is not `size <= max_leaf_size`",
-                  f"differs from the documented leaf criterion for {wit}" + (f"; unrecognised operands {sorted(extra)}" if extra else ""),
-                  note=f"leaf test, {n} orderings")
-    except order.Unsupported as ex:
-        ctx.fail("C11-O1", ctx.site(KD, fn, leaf_if), "leaf test is not a comparison of the leaf size with max_leaf_size", str(ex))
-
-    other = [p for p in fin if not p.has_guard(leaf_if.test, leaf_pol)]
-    ctx.check(bool(other) or bool(extra_disjuncts), "C11-T1", site,
-              "the only path of the construction loop that finalises a leaf requires size <= max_leaf_size",
-              "more than max_leaf_size identical points can never be separated by a pivot: every split returns the whole set on one side, "
-              "the leaf is re-queued for ever (12 identical points with max_leaf_size=10 never return)",
-              note=f"{len(other)} finalising path(s) for an oversized leaf" + (f", stop condition `{au.src(extra_disjuncts[0])}`" if extra_disjuncts else ""))
-
-    # ---------------- children (pushed names bound to self._new_leaf(...))
-    pushed = []
-    for c in sorted(W.pushes(loop), key=pos):
-        if len(c.args) == 1 and isinstance(c.args[0], ast.Name):
-            pushed.append((c.args[0].id, c))
-    children = []       # (name, _new_leaf call, binding stmt, push call)
-    for name, pc in pushed:
-        bs = [x for x in U.bindings_of(fn, name, within=loop)]
-        if len(bs) == 1 and is_self_call(bs[0][1], "_new_leaf"):
-            children.append((name, bs[0][1], bs[0][0], pc))
-    if len(children) != 2 or len(pushed) != 2 or leafmap is None:
-        ctx.fail("C11-P1", site, "the split branch does not queue exactly two children created by self._new_leaf(...)",
-                 f"work-list pushes in the loop: {[au.src(c) for _, c in pushed]}")
-        return root_id_of(ctx, fn, leafmap, W)
-    lparams = leafmap["params"]
-
-    def leaf_arg(call, field):
-        idx = leafmap["map"].get(field)
-        if idx is None:
-            return None
-        return bind_args(call, lparams).get(lparams[idx])
-
-    part_names = [leaf_arg(c[1], "points") for c in children]
-    # ---------------- C11-P1 parts come from one split of the popped leaf
-    split_info = None
-    if all(isinstance(p, ast.Name) for p in part_names) and part_names[0].id != part_names[1].id:
-        b0 = U.bindings_of(fn, part_names[0].id, within=loop)
-        b1 = U.bindings_of(fn, part_names[1].id, within=loop)
-        stm0 = {id(s): (s, v, i) for s, v, i in b0}
-        stm1 = {id(s): (s, v, i) for s, v, i in b1}
-        same_stmts = set(stm0) == set(stm1) and bool(stm0)
-        calls_ok, axes, idxs, val_names = True, [], set(), set()
-        for k in stm0:
-            s, v, i0 = stm0[k]
-            i1 = stm1[k][2] if k in stm1 else None
-            if not (is_self_call(v, "_split_points") and len(v.args) == 2 and not v.keywords
-                    and au.src(v.args[0]) == f"{popped}.points" and isinstance(s, ast.Assign)
-                    and isinstance(s.targets[0], ast.Tuple) and len(s.targets[0].elts) == 3
-                    and {i0, i1} == {1, 2}):
-                calls_ok = False
-                continue
-            axes.append(v.args[1])
-            idxs.add((i0, i1))
-            t0 = s.targets[0].elts[0]
-            val_names.add(t0.id if isinstance(t0, ast.Name) else au.src(t0))
-        ok = same_stmts and calls_ok and len(idxs) == 1 and len(val_names) == 1 and all(au.same(a, axes[0]) for a in axes)
-        ctx.check(ok, "C11-P1", site,
-                  f"the children's point sets `{part_names[0].id}`, `{part_names[1].id}` are not the two parts of one "
-                  f"`value, part, part = self._split_points({popped}.points, axis)`",
-                  "the two children must partition the points of the leaf being split",
-                  note="children receive the two parts of one split of the popped leaf")
-        if ok:
-            i0, i1 = next(iter(idxs))
-            split_info = {"axis": axes[0], "value": next(iter(val_names)), "pos": {children[0][0]: i0, children[1][0]: i1}}
-    else:
-        ctx.fail("C11-P1", site, "the children do not receive two distinct point-index arrays", f"{[au.src(p) if p is not None else None for p in part_names]}")
-
-    # ---------------- C11-T1 (second half): the degenerate exit is taken whenever one part is empty
-    if other and split_info:
-        n0, n1 = part_names[0].id, part_names[1].id
-        forms = {}
-        for nm, s in ((n0, "a"), (n1, "b")):
-            forms.update({f"{nm}.size": s, f"len({nm})": s, f"{nm}.shape[0]": s})
-        forms.update(size_forms)
-        evaluable, good = 0, 0
-        for p in other:
-            gs = [(t, pol) for t, pol, kind in p.guards if kind == "if" and t is not leaf_if.test]
-            if not gs:
-                continue
-            e = U.conj(gs)
-            try:
-                pr = order.Pred(generic_sym(forms)).collect(e)
-                if not pr.symbols <= {"a", "b", "size"}:
-                    continue
-                r = U.relate(e, "a == 0 or b == 0", generic_sym(forms),
-                             env_ok=lambda env: env.get("a", 0) >= 0 and env.get("b", 0) >= 0 and env.get("a", 0) + env.get("b", 0) > 0
-                             and ("size" not in env or env["size"] == env.get("a", 0) + env.get("b", 0)),
-                             extra_symbols=("a", "b"))
-            except order.Unsupported:
-                continue
-            evaluable += 1
-            good += r["spec_not_code"] is None
-        if evaluable:
-            ctx.check(good > 0, "C11-T1", site,
-                      "the extra leaf-finalising path is not taken whenever one side of the split is empty",
-                      "an empty side means the other child is the leaf itself: it must be finalised, not re-queued "
-                      "(identical points loop for ever)", note="degenerate split (one empty side) finalises the leaf")
-
-    # ---------------- C11-I1 node table indexed by id
-    n_app_bad, carried_bad = [], []
-    node_names = set()
-    for p in all_paths:
-        apps = [c for c in U.path_calls(p) if au.call_tail(c) == "append" and isinstance(c.func, ast.Attribute)
-                and au.is_self_attr(c.func.value, "nodes")]
-        in_loops = [c for c in apps if any(isinstance(a, U.LOOPS) and a is not loop for a in au.ancestors(c)
-                                           if a is not loop and loop in list(au.ancestors(a)))]
-        if len(apps) != 1 or in_loops:
-            n_app_bad.append(len(apps))
-            continue
-        a = apps[0].args[0] if apps[0].args else None
-        if isinstance(a, ast.Name) and a.id == popped:
-            continue
-        okc = False
-        if isinstance(a, ast.Name):
-            node_names.add(a.id)
-            bs = U.bindings_of(fn, a.id, within=loop)
-            if len(bs) == 1 and isinstance(bs[0][1], ast.Call) and au.call_tail(bs[0][1]) == "Node":
-                nf = dataclass_fields(repo.cls(KD, "KDTree.Node"))
-                args = bind_args(bs[0][1], nf)
-                okc = "id" in args and au.src(args["id"]) == f"{popped}.id"
-        if not okc:
-            carried_bad.append(au.src(apps[0]))
-    ctx.check(not n_app_bad, "C11-I1", site,
-              "some path of the construction loop does not append exactly one entry to self.nodes for the popped element",
-              f"self.nodes[i] must be the node with id i; appends per path: {sorted(set(n_app_bad))}",
-              note=f"{len(all_paths)} paths, one self.nodes.append each")
-    ctx.check(not carried_bad, "C11-I1", site,
-              f"an entry appended to self.nodes does not carry the id of the popped element ({sorted(set(carried_bad))})",
-              "self.nodes[i] must be the node with id i")
-    ctx.check(W.is_fifo(), "C11-I1", site,
-              f"the construction work-list is not first-in first-out (`{au.src(W.pop_call)}` with "
-              f"{sorted({c.func.attr for c in W.pushes(loop)})})",
-              "ids are allotted when a leaf is created and self.nodes is filled in pop order: only a FIFO work-list keeps self.nodes[i].id == i",
-              note="FIFO work-list")
-    order_created = [c[0] for c in sorted(children, key=lambda c: pos(c[2]))]
-    order_pushed = [c[0] for c in sorted(children, key=lambda c: pos(c[3]))]
-    same_block = au.enclosing_block(au.enclosing_stmt(children[0][3]))[0] is au.enclosing_block(au.enclosing_stmt(children[1][3]))[0]
-    ctx.check(order_created == order_pushed and same_block, "C11-I1", site,
-              f"children are created in the order {order_created} but queued in the order {order_pushed}",
-              "the child created first has the smaller id and must be popped (hence stored) first")
-
-    # ---------------- C11-S1 the inner node knows both children
-    lr = {}
-    for st in au.stmts(loop.body):
-        if isinstance(st, ast.Assign):
-            for t in st.targets:
-                pairs = []
-                if isinstance(t, (ast.Tuple, ast.List)) and isinstance(st.value, (ast.Tuple, ast.List)) and len(t.elts) == len(st.value.elts):
-                    pairs = list(zip(t.elts, st.value.elts))
-                else:
-                    pairs = [(t, st.value)]
-                for tt, vv in pairs:
-                    if isinstance(tt, ast.Attribute) and isinstance(tt.value, ast.Name) and tt.value.id in node_names \
-                            and tt.attr in ("left", "right"):
-                        lr.setdefault(tt.attr, []).append(vv)
-    for nn in node_names:
-        for s_, v_, _ in U.bindings_of(fn, nn, within=loop):
-            if isinstance(v_, ast.Call) and au.call_tail(v_) == "Node":
-                for kw in v_.keywords:
-                    if kw.arg in ("left", "right"):
-                        lr.setdefault(kw.arg, []).append(kw.value)
-    vals = {k: [au.src(x) for x in v] for k, v in lr.items()}
-    want = {f"{children[0][0]}.id", f"{children[1][0]}.id"}
-    ok = set(vals) == {"left", "right"} and all(len(v) == 1 for v in vals.values()) and {vals["left"][0], vals["right"][0]} == want
-    ctx.check(ok, "C11-S1", site,
-              f"the inner node's left/right are {vals}, not the ids of the two queued children {sorted(want)}",
-              "queries reach the points of a split leaf only through node.left / node.right",
-              note="node.left / node.right are the two children ids")
-
-    # ---------------- node record: id / axis / value / box of the popped leaf
-    if split_info and node_names:
-        nn = sorted(node_names)[0]
-        bs = U.bindings_of(fn, nn, within=loop)
-        nf = dataclass_fields(repo.cls(KD, "KDTree.Node"))
-        args = bind_args(bs[0][1], nf) if bs and isinstance(bs[0][1], ast.Call) else {}
-        ok = "bb" in args and au.src(args["bb"]) == f"{popped}.bb"
-        ctx.check(ok, "C11-P1", site,
-                  f"the inner node replacing the split leaf does not keep the leaf's box (bb={au.src(args['bb']) if 'bb' in args else 'missing'})",
-                  "queries measure the distance to self.nodes[child].bb for inner nodes too")
-
-    # ---------------- C11-A1 + box cut (C11-P1)
-    np_al = U.numpy_aliases(repo.module(KD)) or {"np"}
-    stores = []
-    for st in au.stmts(fn.body):
-        for t in au.assign_targets(st):
-            for tt in (t.elts if isinstance(t, (ast.Tuple, ast.List)) else [t]):
-                if isinstance(tt, ast.Subscript):
-                    stores.append((st, tt))
-    n_a1 = 0
-    cuts = {}   # array name -> (corner 'mini'|'maxi', index expr, value expr)
-    for st, tt in stores:
-        base = tt.value
-        if isinstance(base, ast.Name):
-            n_a1 += 1
-            defs = U.bindings_of(fn, base.id)
-            is_param = base.id in params and not any(pos(s) < pos(st) and s in fn.body for s, _, _ in defs)
-            fresh = bool(defs) and not is_param and all(not isinstance(v, ast.AugAssign) and i is None and U.is_fresh(v, np_al)
-                                                        for s, v, i in defs)
-            ctx.check(fresh, "C11-A1", ctx.site(KD, fn, st),
-                      f"`{base.id}` receives a subscript store but is bound to `{'; '.join(au.src(v) for s, v, i in defs if not isinstance(v, ast.AugAssign)) or 'a parameter'}`, not to a fresh copy",
-                      "AABB keeps views of the arrays it is given: writing into the parent's corner moves the box of every node sharing it "
-                      "(all ancestors and the sibling), and every later query prunes with wrong boxes",
-                      note=f"{base.id} is a fresh copy")
-            if fresh and len(defs) == 1 and isinstance(defs[0][1], ast.Call) and isinstance(st, ast.Assign):
-                v = defs[0][1]
-                src_e = v.args[0] if v.args else (v.func.value if isinstance(v.func, ast.Attribute) else None)
-                if au.call_tail(v) == "copy" and isinstance(v.func, ast.Attribute) and not v.args:
-                    src_e = v.func.value
-                if src_e is not None and au.src(src_e) in (f"{popped}.bb.mini", f"{popped}.bb.maxi"):
-                    cuts[base.id] = (au.src(src_e).rsplit(".", 1)[1], tt.slice, st.value, pos(st))
-        else:
-            c = au.chain(base) or []
-            if set(c) & {"bb", "mini", "maxi", "_p1", "_p2"}:
-                n_a1 += 1
-                ctx.fail("C11-A1", ctx.site(KD, fn, st),
-                         f"subscript store into `{au.src(base)}`, a corner array owned by an existing box",
-                         "AABB keeps views of the arrays it is given: the parent's box (and every box sharing the corner) is corrupted")
-    if n_a1 == 0 and not any("box of child" in u for u in ctx.unsupported):
-        ctx.fail("C11-A1", site, "no freshly copied corner array receives the split value in the constructor",
-                 "the children boxes must be the parent's box cut at the split value, on copies of its corners")
-
-    if split_info and split is not None:
-        for name, call, bst, pc in children:
-            low = split_info["pos"][name] == split["low_index"]
-            bbs = []        # (stmt, value or None) for every assignment to <child>.bb in the loop
-            for st in au.stmts(loop.body):
-                if not isinstance(st, ast.Assign):
-                    continue
-                for t in st.targets:
-                    if isinstance(t, (ast.Tuple, ast.List)):
-                        paired = isinstance(st.value, (ast.Tuple, ast.List)) and len(st.value.elts) == len(t.elts)
-                        for i, e in enumerate(t.elts):
-                            if isinstance(e, ast.Attribute) and e.attr == "bb" and isinstance(e.value, ast.Name) and e.value.id == name:
-                                bbs.append((st, st.value.elts[i] if paired else None))
-                    elif isinstance(t, ast.Attribute) and t.attr == "bb" and isinstance(t.value, ast.Name) and t.value.id == name:
-                        bbs.append((st, st.value))
-            csite = ctx.site(KD, fn, bbs[0][0] if bbs else bst)
-            if len(bbs) != 1:
-                ctx.fail("C11-P1", csite, f"box of child `{name}` is not assigned exactly once in the split branch",
-                         "queries call self.nodes[child].bb.distance(pt) for every child")
-                continue
-            if not (isinstance(bbs[0][1], ast.Call) and au.call_tail(bbs[0][1]) == "AABB" and len(bbs[0][1].args) == 2):
-                ctx.declare_unsupported(f"C11-P1: box of child `{name}` is built by `{au.src(bbs[0][0])}` (not a literal AABB(lower, upper)): cut not decided")
-                continue
-            bbs = [ast.Assign(targets=[], value=bbs[0][1], lineno=bbs[0][0].lineno, col_offset=bbs[0][0].col_offset)]
-            lo, hi = bbs[0].value.args
-            side = "low" if low else "high"
-            if low:
-                kept, cut, want_corner, kept_src = lo, hi, "maxi", f"{popped}.bb.mini"
-            else:
-                kept, cut, want_corner, kept_src = hi, lo, "mini", f"{popped}.bb.maxi"
-            c = cuts.get(cut.id) if isinstance(cut, ast.Name) else None
-            ok = au.src(kept) == kept_src and c is not None and c[0] == want_corner and au.same(c[1], split_info["axis"]) \
-                and au.src(c[2]) == split_info["value"] and c[3] < pos(bbs[0])
-            ctx.check(ok, "C11-P1", csite,
-                      f"box of the {side}-side child `{name}` is AABB({au.src(lo)}, {au.src(hi)}): not the parent's box with its "
-                      f"{want_corner} corner moved to the split value along the split axis",
-                      "the child's box must contain all of its points and be cut where the points were cut; a wrong box makes both queries prune subtrees that hold answers",
-                      note=f"{side} child: parent box with {want_corner}[axis] = split value")
-        # the node records the same axis / value
-        if node_names:
-            nn = sorted(node_names)[0]
-            bs = U.bindings_of(fn, nn, within=loop)
-            nf = dataclass_fields(repo.cls(KD, "KDTree.Node"))
-            args = bind_args(bs[0][1], nf) if bs and isinstance(bs[0][1], ast.Call) else {}
-            ok = "split_axis" in args and au.same(args["split_axis"], split_info["axis"]) and \
-                ("split_value" not in args or au.src(args["split_value"]) == split_info["value"])
-            ctx.check(ok, "C11-P1", site, "the inner node does not record the axis / value its points were split at",
-                      f"split along `{au.src(split_info['axis'])}` at `{split_info['value']}`, node built with "
-                      f"{ {k: au.src(v) for k, v in args.items()} }")
-
-    # ---------------- axis stays a valid column: (axis + 1) % self.dim
-    dim_ok = False
-    for st in au.stmts(fn.body):
-        if isinstance(st, ast.Assign) and isinstance(st.targets[0], ast.Tuple) and len(st.targets[0].elts) == 2 \
-                and isinstance(st.value, ast.Attribute) and st.value.attr == "shape":
-            a0, a1 = st.targets[0].elts
-            dim_ok = au.is_self_attr(a0, "n_pts") and au.is_self_attr(a1, "dim")
-        if isinstance(st, ast.Assign) and au.is_self_attr(st.targets[0], "dim") and isinstance(st.value, ast.Subscript) \
-                and isinstance(st.value.value, ast.Attribute) and st.value.value.attr == "shape":
-            dim_ok = au.const(st.value.slice) == 1
-    for name, call, bst, pc in children:
-        ax = leaf_arg(call, "split_axis")
-        ok = isinstance(ax, ast.BinOp) and isinstance(ax.op, ast.Mod) and au.src(ax.right) == "self.dim" and dim_ok
-        ctx.check(ok, "C11-P1", ctx.site(KD, fn, bst),
-                  f"split axis of child `{name}` is `{au.src(ax) if ax is not None else None}`, not reduced modulo self.dim (the number of columns of the points)",
-                  "below depth dim the axis would index a column that does not exist",
-                  note="child axis reduced modulo self.dim")
-    return root_id_of(ctx, fn, leafmap, W)
-
-
-def root_id_of(ctx, fn, leafmap, W):
-    """C11-P1 root holds every point in an all-containing box; returns the constant id of the root."""
-    site = ctx.site(KD, fn)
-    if leafmap is None:
-        return None
-    counter = leafmap["counter"]
-    lparams = leafmap["params"]
-    inits = [st for st in fn.body if isinstance(st, ast.Assign) and au.is_self_attr(st.targets[0], counter)]
-    roots = [st for st in fn.body if isinstance(st, ast.Assign) and len(st.targets) == 1 and isinstance(st.targets[0], ast.Name)
-             and is_self_call(st.value, "_new_leaf")]
-    if len(inits) != 1 or len(roots) != 1 or pos(inits[0]) > pos(roots[0]) or pos(roots[0]) > pos(W.loop):
-        ctx.fail("C11-I1", site, "initial id counter / root leaf creation before the construction loop not found", "")
-        return None
-    root_id = au.const(inits[0].value)
-    root = roots[0].targets[0].id
-    args = bind_args(roots[0].value, lparams)
-    idx = leafmap["map"].get("points")
-    pts = args.get(lparams[idx]) if idx is not None else None
-    ok = isinstance(pts, ast.Call) and au.call_tail(pts) == "arange" and len(pts.args) == 1 and \
-        au.src(pts.args[0]) in ("self.n_pts", "len(points)", "points.shape[0]", "len(self.points)", "self.points.shape[0]")
-    ctx.check(ok, "C11-P1", ctx.site(KD, fn, roots[0]),
-              f"the root leaf holds `{au.src(pts) if pts is not None else None}`, not np.arange(number of points)",
-              "every input point must be stored in exactly one leaf: the root must start with all indices",
-              note="root holds arange(n_pts)")
-    iax = leafmap["map"].get("split_axis")
-    ax = args.get(lparams[iax]) if iax is not None else None
-    ctx.check(au.const(ax) == 0, "C11-P1", ctx.site(KD, fn, roots[0]),
-              f"root split axis is `{au.src(ax) if ax is not None else None}` (expected the constant 0, valid for every dimension >= 1)", "")
-    queued = [c for st in fn.body if pos(st) < pos(W.loop) for c in W.pushes(st)]
-    ctx.check(len(queued) == 1 and au.src(queued[0].args[0]) == root, "C11-I1", site,
-              "the work-list does not start with exactly the root leaf", "construction must process the root first (id 0 is stored at index 0)")
-    boxes = [st for st in fn.body if isinstance(st, ast.Assign) and isinstance(st.targets[0], ast.Attribute)
-             and st.targets[0].attr == "bb" and isinstance(st.targets[0].value, ast.Name) and st.targets[0].value.id == root]
-    ok = len(boxes) == 1 and isinstance(boxes[0].value, ast.Call) and au.call_name(boxes[0].value) in ("AABB.infinite", "AABB.of_points") \
-        and pos(boxes[0]) < pos(W.loop)
-    ctx.check(ok, "C11-P1", site, "the root box is not AABB.infinite(dim) / AABB.of_points(points)",
-              "the root box must contain every point, the children boxes are cut out of it")
-    return root_id
-
-
-# ---------------------------------------------------------------- is_leaf
-def is_leaf(ctx):
-    fn = ctx.repo.func(KD, "KDTree.is_leaf")
-    site = ctx.site(KD, fn)
-    ps = au.params(fn, skip_self=True)
-    rets = [st for st in au.stmts(fn.body) if isinstance(st, ast.Return)]
-    ok = False
-    if len(rets) == 1 and isinstance(rets[0].value, ast.Call) and au.call_tail(rets[0].value) == "isinstance" and len(rets[0].value.args) == 2:
-        a, c = rets[0].value.args
-        ok = isinstance(a, ast.Subscript) and au.is_self_attr(a.value, "nodes") and ps and au.src(a.slice) == ps[0] \
-            and (au.chain(c) or [None])[-1] == "Leaf"
-    ctx.check(ok, "C11-I1", site, "is_leaf(i) is not `isinstance(self.nodes[i], KDTree.Leaf)`",
-              "both queries branch on it to decide between reading points and descending")
-
-
-# ---------------------------------------------------------------- query (kNN)
-def leaf_branch(fn, W):
-    """the If in the loop whose test is self.is_leaf(popped) (possibly negated) -> (If, polarity of the leaf side)"""
-    for st in au.stmts(W.loop.body):
-        if isinstance(st, ast.If):
-            t, pol = U.strip_not(st.test, True)
-            if (is_self_call(t, "is_leaf") and len(t.args) == 1 and au.src(t.args[0]) == W.popped) or \
-                    (isinstance(t, ast.Call) and au.call_tail(t) == "isinstance" and "Leaf" in au.src(t)):
-                return st, pol
-    return None, None
-
-
-def point_distance_atom(idx_name, pt):
-    """atom_of for sym.to_poly: distance(self.points[idx], pt) (either argument order, default metric) -> 'D'"""
-    def f(e):
-        if isinstance(e, ast.Call) and au.call_tail(e) == "distance" and len(e.args) == 2 and not e.keywords:
-            srcs = {au.src(a) for a in e.args}
-            if srcs == {f"self.points[{idx_name}]", pt}:
-                return "D"
-        return None
-    return f
-
-
-def knn(ctx, root_id):
-    repo = ctx.repo
-    fn = repo.func(KD, "KDTree.query")
-    site = ctx.site(KD, fn)
-    b = sym.Bindings(fn)
-    ps = au.params(fn, skip_self=True)
-    if len(ps) < 2 or ps[1] != "k":
-        ctx.fail("C11-K1", site, "query(pt, k) signature not found", "")
-        return
-    pt, k = ps[0], ps[1]
-    W = find_worklist(fn)
-    if W is None:
-        ctx.fail("C11-K1", site, "search work-list loop not found in query", "")
-        return
-    loop, popped = W.loop, W.popped
-    lif, lpol = leaf_branch(fn, W)
-    if lif is None:
-        ctx.fail("C11-S1", site, "leaf / inner-node branch on self.is_leaf(node) not found in query", "")
-        return
-    leaf_body = lif.body if lpol else lif.orelse
-    node_body = lif.orelse if lpol else lif.body
-    heaps = [n for n in sorted({x for x in au.names(fn)}) if any(isinstance(v, ast.Call) and au.call_tail(v) == "PriorityQueue"
-                                                               for s, v, i in U.bindings_of(fn, n) if not isinstance(v, ast.AugAssign))]
-    if len(heaps) != 1:
-        ctx.fail("C11-H1", site, "candidate heap (a local PriorityQueue()) not found in query", f"{heaps}")
-        return
-    H = heaps[0]
-
-    def heap_calls(node, names):
-        return [c for c in au.calls(node) if isinstance(c.func, ast.Attribute) and isinstance(c.func.value, ast.Name)
-                and c.func.value.id == H and c.func.attr in names]
-
-    # ---------------- C11-H1 push / counter / trim
-    pushes = [c for st in leaf_body for c in heap_calls(st, ("push",))]
-    stray = [c for c in heap_calls(fn, ("push",)) if not any(c is x for x in pushes)]
-    if len(pushes) != 1 or stray:
-        ctx.fail("C11-H1", site, "exactly one heap push inside the leaf branch of query not found",
-                 f"{len(pushes)} in the leaf branch, {len(stray)} elsewhere")
-        return
-    push = pushes[0]
-    pst = au.enclosing_stmt(push)
-    fors = [a for a in au.ancestors(push) if isinstance(a, ast.For) and a is not loop and loop in list(au.ancestors(a))]
-    idx = fors[0].target.id if fors and isinstance(fors[0].target, ast.Name) else None
-    it_ok = False
-    if fors:
-        it = fors[0].iter
-        it_ok = isinstance(it, ast.Attribute) and it.attr == "points" and node_of(b, it.value, fors[0], popped) \
-            and not au.guards(pst, stop=fors[0]) and any(fors[0] is s for s in leaf_body)
-    ctx.check(it_ok, "C11-S1", ctx.site(KD, fn, push),
-              "the heap push is not made unconditionally for every index of self.nodes[node_id].points of the visited leaf",
-              "every point of a visited leaf is a candidate neighbour", note="every point of a visited leaf is offered to the heap")
-    pri_ok = False
-    if len(push.args) == 2 and idx:
-        pr = b.resolve(push.args[1], at=push, keep=(idx, pt))
-        try:
-            poly = sym.to_poly(pr, atom_of=point_distance_atom(idx, pt))
-            pri_ok = poly == -sym.Poly.atom("D") and au.src(push.args[0]) == idx
-        except Exception:
-            pri_ok = False
-    ctx.check(pri_ok, "C11-H1", ctx.site(KD, fn, push),
-              f"candidates are not pushed as ({idx}, -distance(self.points[{idx}], {pt})) (found `{au.src(push)}`)",
-              "the queue is a min-heap: only the negated distance keeps the *furthest* candidate at the front, which is the one "
-              "to drop when more than k are held", note="priority is the negated point distance")
-    blk, _ = au.enclosing_block(pst)
-    incs = [s for s in (blk or []) if isinstance(s, ast.AugAssign) and isinstance(s.target, ast.Name)
-            and isinstance(s.op, ast.Add) and au.const(s.value) == 1]
-    if len(incs) != 1:
-        ctx.fail("C11-H1", ctx.site(KD, fn, push), "the heap push is not paired with `counter += 1` in the same block",
-                 "the number of held candidates drives the trimming and the final read-out")
-        return
-    n = incs[0].target.id
-    zero = [v for s, v, i in U.bindings_of(fn, n) if not isinstance(v, ast.AugAssign)]
-    ctx.check(len(zero) == 1 and au.const(zero[0]) == 0 and pos(au.enclosing_stmt(zero[0])) < pos(loop), "C11-H1", site,
-              f"the candidate counter `{n}` is not initialised to 0 once before the search loop", "")
-    trims = [s for s in au.stmts(leaf_body) if isinstance(s, (ast.While, ast.If)) and s is not lif
-             and {n, k} <= au.names(s.test) and heap_calls(s, ("pop", "get"))]
-    if len(trims) != 1:
-        ctx.fail("C11-O1", site, f"trimming of the candidate heap (`while {n} > {k}: pop`) not found in the leaf branch",
-                 "without trimming more than k results are returned")
-        return
-    trim = trims[0]
-    try:
-        wit, ne = grid_witness(trim.test, lambda env: env[n] > env[k], (n, k))
-        ctx.check(wit is None, "C11-O1", ctx.site(KD, fn, trim), f"heap trimming test `{au.src(trim.test)}` is not `{n} > {k}`",
-                  f"differs from `held > k` for {wit}: the query returns a number of points other than min(k, n)",
-                  note=f"trim test, {ne} integer assignments")
-    except order.Unsupported as ex:
-        ctx.fail("C11-O1", ctx.site(KD, fn, trim), f"heap trimming test `{au.src(trim.test)}` is not a comparison of the counter with k", str(ex))
-    pops = [s for s in trim.body if isinstance(s, ast.Expr) and heap_calls(s, ("pop", "get"))]
-    decs = [s for s in trim.body if isinstance(s, ast.AugAssign) and isinstance(s.target, ast.Name) and s.target.id == n
-            and isinstance(s.op, ast.Sub) and au.const(s.value) == 1]
-    ctx.check(len(pops) == 1 and len(decs) == 1 and len(heap_calls(trim, ("pop", "get"))) == 1, "C11-H1", ctx.site(KD, fn, trim),
-              f"the trimming body does not pop exactly one candidate together with `{n} -= 1`",
-              "the counter must equal the number of candidates held by the heap", note="pop paired with counter decrement")
-    others = [s for s, v, i in U.bindings_of(fn, n) if isinstance(v, ast.AugAssign) and s is not incs[0] and s not in decs]
-    ctx.check(not others and (trim in (blk or []) and pos(trim) > pos(pst)
-                              or any(trim is s for s in au.stmts(leaf_body))), "C11-H1", site,
-              f"the counter `{n}` is updated elsewhere than with the push / the trimming pop", "")
-
-    # ---------------- C11-H1 result
-    item_fields = dataclass_fields(repo.cls(PQM, "PriorityItem"))
-    payload = [f for f in item_fields if f != "priority"]
-    rets = [st for st in au.stmts(fn.body) if isinstance(st, ast.Return)]
-    res_ok, why = False, ""
-    if len(rets) == 1 and any(rets[0] is s for s in fn.body) and pos(rets[0]) > pos(loop):
-        e = b.resolve(rets[0].value, at=rets[0], keep=(H, n, k))
-        rev = False
-        for _ in range(3):
-            if isinstance(e, ast.Subscript) and isinstance(e.slice, ast.Slice) and e.slice.lower is None and e.slice.upper is None \
-                    and au.const(e.slice.step) == -1:
-                e, rev = e.value, not rev
-            elif isinstance(e, ast.Call) and au.call_tail(e) == "list" and len(e.args) == 1:
-                e = e.args[0]
-            elif isinstance(e, ast.Call) and au.call_tail(e) == "reversed" and len(e.args) == 1:
-                e, rev = e.args[0], not rev
-        if isinstance(e, (ast.ListComp, ast.GeneratorExp)) and len(e.generators) == 1 and not e.generators[0].ifs:
-            g = e.generators[0]
-            elt_ok = isinstance(e.elt, ast.Attribute) and e.elt.attr in payload and isinstance(e.elt.value, ast.Call) \
-                and e.elt.value in heap_calls(e.elt, ("pop", "get")) and len(heap_calls(e, ("pop", "get", "push"))) == 1
-            rng_ok = isinstance(g.iter, ast.Call) and au.call_tail(g.iter) == "range" and len(g.iter.args) == 1 \
-                and au.src(g.iter.args[0]) == n
-            res_ok = elt_ok and rng_ok and rev
-            why = f"payload read {'ok' if elt_ok else 'wrong'}, count {'ok' if rng_ok else 'wrong'}, reversed {rev}"
-    ctx.check(res_ok, "C11-H1", ctx.site(KD, fn, rets[0] if rets else fn),
-              f"the result is not `[heap.pop().{payload[0] if payload else 'x'} for _ in range({n})]` reversed",
-              "the heap hands out the furthest candidate first: popping all held candidates and reversing gives non-decreasing distances; " + why,
-              note="heap popped n_found times, payload read, reversed")
-
-    # ---------------- C11-K1 skip decision depends on k
-    wpush = [c for st in node_body for c in W.pushes(st)]
-    if not wpush:
-        ctx.fail("C11-S1", site, "the inner-node branch of query never queues a child", "")
-        return
-    deps = U.assign_deps(fn)
-    guard_tests = []
-    for c in wpush:
-        for t, pol in au.guards(c, stop=lif):
-            if not any(t is g for g, _ in guard_tests):
-                guard_tests.append((t, pol))
-    if not guard_tests:
-        ctx.ok("C11-K1", site, "children are queued unconditionally (no pruning)")
-    else:
-        seeds = set().union(*[au.names(t) for t, _ in guard_tests])
-        # an assignment executed under a test inside the search loop also carries the names of that test
-        # (`if n_found >= k: bound = ...`); heap effects (push/pop on the candidate heap) carry nothing
-        # - only for the operands of the skip test themselves, so that `n_found -= 1` under `while n_found > k` does not count
-        for name in sorted(seeds):
-            for s_, v_, i_ in U.bindings_of(fn, name, within=loop):
-                for t_, _p in au.guards(s_, stop=loop):
-                    if t_ is not lif.test:
-                        deps.setdefault(name, set()).update(au.names(t_))
-        clo = U.closure(deps, seeds)
-        dep_ok = k in clo
-        ctx.check(dep_ok, "C11-K1", ctx.site(KD, fn, guard_tests[0][0]),
-                  "the decision to skip a child in query does not depend on k",
-                  f"`{' / '.join(au.src(t) for t, _ in guard_tests)}` is computed from {{{', '.join(sorted(clo - {'self', 'float', 'sorted', 'deque', 'PriorityQueue'}))}}} only: "
-                  "the bound is the current worst candidate as soon as ONE candidate is held, so a subtree is pruned although fewer than k "
-                  "candidates were found (small leaves, k larger than a leaf: fewer than min(k, n) results or not the nearest ones)",
-                  note="skip decision data-depends on k")
-        if dep_ok:
-            knn_bound(ctx, fn, b, guard_tests, deps, H, n, k)
-
-    # ---------------- C11-S1 both children with their own box distance
-    cand_loops = [s for s in au.stmts(node_body) if isinstance(s, ast.For) and W.pushes(s)]
-    pair_ok, both_ok, detail = False, False, "children enumeration not recognised"
-    if len(cand_loops) == 1 and isinstance(cand_loops[0].target, ast.Tuple) and len(cand_loops[0].target.elts) == 2:
-        fl = cand_loops[0]
-        it = fl.iter
-        sorted_used = False
-        if isinstance(it, ast.Call) and au.call_tail(it) == "sorted" and len(it.args) == 1 and not it.keywords:
-            it, sorted_used = it.args[0], True
-        it = b.resolve(it, at=fl, keep=(popped, pt)) if isinstance(it, ast.Name) else it
-        if isinstance(it, (ast.List, ast.Tuple)) and all(isinstance(x, ast.Tuple) and len(x.elts) == 2 for x in it.elts):
-            kids, pair_ok = set(), True
-            for tup in it.elts:
-                d, c = tup.elts
-                dd = b.resolve(d, at=fl, keep=(popped, pt))
-                cc = b.resolve(c, at=fl, keep=(popped,))
-                good = isinstance(cc, ast.Attribute) and cc.attr in ("left", "right") and \
-                    isinstance(cc.value, ast.Subscript) and au.is_self_attr(cc.value.value, "nodes") and au.src(cc.value.slice) == popped
-                want = f"self.nodes[{au.src(cc)}].bb.distance({pt})"
-                good = good and au.src(dd) == want
-                pair_ok = pair_ok and good
-                if good:
-                    kids.add(cc.attr)
-            both_ok = kids == {"left", "right"} and len(it.elts) == 2
-            tnames = [x.id if isinstance(x, ast.Name) else None for x in fl.target.elts]
-            pushed_ok = all(len(c.args) == 1 and au.src(c.args[0]) == tnames[1] for c in W.pushes(fl))
-            used_as_dist = any(tnames[0] in au.names(t) for t, _ in guard_tests) if guard_tests else True
-            pair_ok = pair_ok and pushed_ok and used_as_dist
-            detail = f"candidates {au.src(it)}"
-    elif not cand_loops:
-        # two explicit pushes
-        srcs = set()
-        for c in wpush:
-            if len(c.args) == 1:
-                cc = b.resolve(c.args[0], at=c, keep=(popped,))
-                srcs.add(au.src(cc))
-        both_ok = srcs == {f"self.nodes[{popped}].left", f"self.nodes[{popped}].right"}
-        pair_ok = both_ok and not guard_tests
-        detail = f"pushes {sorted(srcs)}"
-    ctx.check(both_ok, "C11-S1", site, "query does not consider both node.left and node.right of a visited inner node",
-              detail, note="both children are candidates")
-    ctx.check(pair_ok, "C11-S1", site,
-              "in query a child is not paired with the distance of its own box (self.nodes[child].bb.distance(pt))",
-              "pruning a child with the sibling's distance skips subtrees that hold nearer points; " + detail,
-              note="each child paired with its own box distance")
-    start = [c for st in fn.body if pos(st) < pos(loop) for c in W.pushes(st)]
-    ctx.check(len(start) == 1 and root_id is not None and au.const(start[0].args[0]) == root_id, "C11-I1", site,
-              "the search does not start from the root id", f"root id is {root_id}")
-
-
-def knn_bound(ctx, fn, b, guard_tests, deps, H, n, k):
-    """second half of C11-K1: the bound is finite only when k candidates are held; never skip a closer box."""
-    cmp_tests = [(t, pol) for t, pol in guard_tests if isinstance(t, ast.Compare) and len(t.ops) == 1
-                 and isinstance(t.left, ast.Name) and isinstance(t.comparators[0], ast.Name)]
-    for t, pol in cmp_tests:
-        l, r = t.left.id, t.comparators[0].id
-        cl, cr = U.closure(deps, {l}), U.closure(deps, {r})
-        if (H in cl) == (H in cr):
-            continue
-        bound, dist = (l, r) if H in cl else (r, l)
-        site = ctx.site(KD, fn, t)
-        try:
-            res = U.relate(t if pol else ast.UnaryOp(op=ast.Not(), operand=t), "bound > dist",
-                           generic_sym({bound: "bound", dist: "dist"}))
-            ctx.check(res["spec_not_code"] is None, "C11-K1", site,
-                      f"a child is skipped although its box is closer than the current worst candidate (`{au.src(t)}`)",
-                      f"for {res['spec_not_code']} the child may hold a nearer point and must be visited",
-                      note=f"never skips a closer box, {res['n']} orderings")
-        except order.Unsupported:
-            pass
-        for s_, v_, i_ in U.bindings_of(fn, bound, within=au.enclosing_func(t)):
-            if i_ is not None or isinstance(v_, ast.AugAssign):
-                continue
-            conds = [(g, p) for g, p in au.guards(s_) if not isinstance(au.parent(g), ast.While)
-                     and not (is_self_call(U.strip_not(g, p)[0], "is_leaf"))]
-            finite = v_
-            if isinstance(v_, ast.IfExp) and (is_inf(v_.body) != is_inf(v_.orelse)):
-                conds = conds + [(v_.test, is_inf(v_.orelse))]
-                finite = v_.body if is_inf(v_.orelse) else v_.orelse
-            elif is_inf(v_):
-                continue
-            finite_test = U.conj(conds)
-            try:
-                wit, ne = grid_witness(finite_test, lambda env: env[n] >= env[k], (n, k), mode="code_implies_spec")
-                ctx.check(wit is None, "C11-K1", site,
-                          f"the pruning bound is finite under `{au.src(finite_test)}`, which does not imply {n} >= {k}",
-                          f"for {wit} fewer than k candidates are held but subtrees are pruned against the worst of them",
-                          note=f"finite bound only when k candidates are held, {ne} integer assignments")
-            except order.Unsupported:
-                pass
-            try:
-                poly = sym.to_poly(finite, atom_of=lambda x: "F" if au.src(x) == f"{H}.front.priority" else None)
-                ctx.check(poly == -sym.Poly.atom("F"), "C11-K1", site,
-                          f"the finite pruning bound `{au.src(finite)}` is not the negated priority of the heap front",
-                          "priorities are negated distances: the current worst candidate distance is -front.priority",
-                          note="bound is -front.priority")
-            except Exception:
-                pass
-
-
-# ---------------------------------------------------------------- query_radius
-def radius(ctx, root_id):
-    repo = ctx.repo
-    fn = repo.func(KD, "KDTree.query_radius")
-    site = ctx.site(KD, fn)
-    b = sym.Bindings(fn)
-    ps = au.params(fn, skip_self=True)
-    if len(ps) < 2:
-        ctx.fail("C11-O1", site, "query_radius(pt, r) signature not found", "")
-        return
-    pt, r = ps[0], ps[1]
-    W = find_worklist(fn)
-    if W is None:
-        ctx.fail("C11-O1", site, "search work-list loop not found in query_radius", "")
-        return
-    loop, popped = W.loop, W.popped
-    lif, lpol = leaf_branch(fn, W)
-    if lif is None:
-        ctx.fail("C11-S1", site, "leaf / inner-node branch on self.is_leaf(node) not found in query_radius", "")
-        return
-    leaf_body = lif.body if lpol else lif.orelse
-    node_body = lif.orelse if lpol else lif.body
-
-    def is_box_dist(e):
-        return isinstance(e, ast.Call) and isinstance(e.func, ast.Attribute) and e.func.attr == "distance" \
-            and isinstance(e.func.value, ast.Attribute) and e.func.value.attr == "bb"
-
-    def is_pt_dist(e):
-        return isinstance(e, ast.Call) and au.call_tail(e) == "distance" and len(e.args) >= 2
-
-    def sym_r(node):
-        if is_box_dist(node):
-            return "dist"
-        if is_pt_dist(node):
-            return "d"
-        if isinstance(node, ast.Name) and node.id == r:
-            return "r"
-        if isinstance(node, ast.Name):
-            e = b.resolve(node, at=node)
-            if e is not node and not isinstance(e, ast.Name):
-                return sym_r(e)
-        if isinstance(node, ast.BinOp):
-            raise order.Unsupported(f"arithmetic `{au.src(node)}` in a radius predicate")
-        return au.src(node)
-
-    # ---- prune
-    prunes = []
-    for st in au.stmts(loop.body):
-        if isinstance(st, ast.If):
-            try:
-                pr = order.Pred(sym_r).collect(st.test)
-            except order.Unsupported:
-                pr = None
-            if pr is not None and "dist" in pr.symbols:
-                prunes.append(st)
-            elif pr is None and any(is_box_dist(x) for x in au.walk(st.test)):
-                prunes.append(st)
-    if not prunes:
-        ctx.ok("C11-O1", site, "query_radius does not prune (every node is visited)")
-    for st in prunes:
-        psite = ctx.site(KD, fn, st)
-        skip_pol = None
-        if U._always_leaves(st.body) and not (st.orelse and U._always_leaves(st.orelse)):
-            skip_pol = True
-        elif st.orelse and U._always_leaves(st.orelse):
-            skip_pol = False
-        elif not st.orelse and (W.pushes(st) or any(lif is s for s in au.stmts(st.body))):
-            skip_pol = False
-        if skip_pol is None:
-            ctx.fail("C11-O1", psite, "cannot tell which outcome of the box-distance test skips the node", au.src(st.test))
-            continue
-        code = st.test if skip_pol else ast.UnaryOp(op=ast.Not(), operand=st.test)
-        try:
-            res = U.relate(code, "dist > r", sym_r)
-            syms = order.Pred(sym_r).collect(st.test).symbols
-            ctx.check(res["code_not_spec"] is None and syms <= {"dist", "r"}, "C11-O1", psite,
-                      f"query_radius skips a node under `{au.src(code)}`, which does not imply box distance > {r}",
-                      f"for {res['code_not_spec']} the box may hold a point at distance <= {r} (a point exactly at distance r lying on the box border is lost)"
-                      + (f"; operands {sorted(syms)}" if not syms <= {'dist', 'r'} else ""),
-                      note=f"prune only when box distance > r, {res['n']} orderings")
-        except order.Unsupported as ex:
-            ctx.fail("C11-O1", psite, f"prune test `{au.src(st.test)}` is not a comparison of the box distance with {r}", str(ex))
-        boxes = [x for x in au.walk(st.test) if is_box_dist(x)]
-        okb = all(node_of(b, x.func.value.value, st, popped) and len(x.args) == 1 and au.src(x.args[0]) == pt and not x.keywords
-                  for x in boxes) and bool(boxes)
-        ctx.check(okb, "C11-S1", psite, f"the pruning distance is not self.nodes[{popped}].bb.distance({pt}) of the popped node",
-                  "a node must be judged by its own box")
-
-    # ---- keep filter
-    filt = []
-    for x in au.walk(ast.Module(body=leaf_body, type_ignores=[])):
-        if isinstance(x, ast.Compare) and any(is_pt_dist(y) for y in au.walk(x)):
-            filt.append(x)
-    if len(filt) != 1:
-        ctx.fail("C11-O1", site, f"radius filter (`distance(point, {pt}) <= {r}`) not found in the leaf branch of query_radius",
-                 f"{len(filt)} comparisons of a point distance")
-        return
-    f = filt[0]
-    fsite = ctx.site(KD, fn, f)
-    # polarity: comprehension-if / enclosing If body
-    owner = None
-    for a in au.ancestors(f):
-        if isinstance(a, ast.comprehension):
-            owner = a
-            break
-        if isinstance(a, ast.If):
-            owner = a
-            break
-        if isinstance(a, ast.stmt):
-            break
-    test = None
-    idx = None
-    if isinstance(owner, ast.comprehension) and len(owner.ifs) == 1 and isinstance(owner.target, ast.Name):
-        test, idx, it, at = owner.ifs[0], owner.target.id, owner.iter, au.enclosing_stmt(f)
-        comp = au.parent(owner)
-        collected = isinstance(comp, (ast.ListComp, ast.GeneratorExp, ast.SetComp)) and au.src(comp.elt) == idx
-    elif isinstance(owner, ast.If) and not owner.orelse:
-        test = owner.test
-        fl = [a for a in au.ancestors(owner) if isinstance(a, ast.For)]
-        if fl and isinstance(fl[0].target, ast.Name):
-            idx, it, at = fl[0].target.id, fl[0].iter, fl[0]
-            collected = any(au.call_tail(c) in ("append", "add") and len(c.args) == 1 and au.src(c.args[0]) == idx
-                            for c in au.calls(ast.Module(body=owner.body, type_ignores=[])))
-    if test is None or idx is None:
-        ctx.fail("C11-O1", fsite, "radius filter is neither a comprehension condition nor an `if` around the collection of the index", "")
-        return
-    try:
-        wit, ne = order.compare(test, "d <= r", sym_r)
-        syms = order.Pred(sym_r).collect(test).symbols
-        ctx.check(wit is None and syms <= {"d", "r"}, "C11-O1", fsite, f"radius filter `{au.src(test)}` is not `distance <= {r}`",
-                  f"differs from `d <= r` for {wit}: points at distance exactly r (or beyond) are mis-classified",
-                  note=f"radius filter, {ne} orderings")
-    except order.Unsupported as ex:
-        ctx.fail("C11-O1", fsite, f"radius filter `{au.src(test)}` is not a comparison of the point distance with {r}", str(ex))
-    dcalls = [y for y in au.walk(f) if is_pt_dist(y)]
-    okd = all({au.src(a) for a in y.args[:2]} == {f"self.points[{idx}]", pt} and len(y.args) == 2 and not y.keywords for y in dcalls)
-    ok_it = isinstance(it, ast.Attribute) and it.attr == "points" and node_of(b, it.value, at, popped)
-    ctx.check(okd and ok_it and collected, "C11-S1", fsite,
-              f"query_radius does not test distance(self.points[i], {pt}) for every i of the visited leaf's points and collect i",
-              "every point of a visited leaf must be tested against the ball, and the index tested is the index reported",
-              note="every point of a visited leaf is tested")
-
-    # ---- both children queued
-    srcs = []
-    for st in node_body:
-        for c in W.pushes(st):
-            if len(c.args) == 1 and not au.guards(c, stop=lif):
-                srcs.append(au.src(b.resolve(c.args[0], at=c, keep=(popped,))))
-    want = sorted([f"self.nodes[{popped}].left", f"self.nodes[{popped}].right"])
-    ctx.check(sorted(srcs) == want, "C11-S1", site,
-              f"query_radius queues {srcs} for an inner node instead of both node.left and node.right, unconditionally",
-              "a child that is not queued hides all the points of its subtree", note="both children queued")
-    start = [c for st in fn.body if pos(st) < pos(loop) for c in W.pushes(st)]
-    ctx.check(len(start) == 1 and root_id is not None and au.const(start[0].args[0]) == root_id, "C11-I1", site,
-              "the radius search does not start from the root id", f"root id is {root_id}")
-    rets = [st for st in au.stmts(fn.body) if isinstance(st, ast.Return)]
-    ctx.check(len(rets) == 1 and any(rets[0] is s for s in fn.body) and pos(rets[0]) > pos(loop), "C11-S1", site,
-              "query_radius returns before the work-list is exhausted", "an early return drops the unvisited subtrees")
-
-
-# ---------------------------------------------------------------- AABB.distance
-def box_distance(ctx):
-    repo = ctx.repo
-    fn = repo.func(BOX, "AABB.distance")
-    site = ctx.site(BOX, fn)
-    b = sym.Bindings(fn)
-    ps = au.params(fn, skip_self=True)
-    pt = ps[0] if ps else "pt"
-    rets = [st for st in au.stmts(fn.body) if isinstance(st, ast.Return)]
-    ok, leaves_src = False, []
-    if len(rets) == 1 and isinstance(rets[0].value, ast.Call) and au.call_tail(rets[0].value) == "norm" and rets[0].value.args:
-        e = rets[0].value.args[0]
-        if isinstance(e, ast.Name):
-            bs = [v for s, v, i in U.bindings_of(fn, e.id)]
-            e = bs[0] if len(bs) == 1 else e
-        leaves = []
-
-        def flat(x):
-            if isinstance(x, ast.Call) and au.call_tail(x) == "maximum" and len(x.args) == 2 and not x.keywords:
-                flat(x.args[0]); flat(x.args[1])
-            else:
-                leaves.append(x)
-        flat(e)
-        leaves_src = [au.src(x) for x in leaves]
-
-        def atom(x):
-            if au.is_self_attr(x, "mini") or au.is_self_attr(x, "_p1"):
-                return "lo"
-            if au.is_self_attr(x, "maxi") or au.is_self_attr(x, "_p2"):
-                return "hi"
-            if isinstance(x, ast.Name) and x.id == pt:
-                return "p"
-            return None
-        try:
-            polys = {repr(sym.to_poly(x, atom_of=atom, opaque=False)) for x in leaves}
-            want = {repr(sym.Poly.atom("lo") - sym.Poly.atom("p")), repr(sym.Poly.atom("p") - sym.Poly.atom("hi")), repr(sym.Poly())}
-            ok = polys == want and len(leaves) == 3
-        except sym.NotPoly:
-            ok = False
-        # metric is forwarded
-        call = rets[0].value
-        wh = call.args[1] if len(call.args) > 1 else next((kw.value for kw in call.keywords if kw.arg == "which"), None)
-        ok = ok and (wh is None or (isinstance(wh, ast.Name) and wh.id in ps))
-    ctx.check(ok, "C11-D1", site,
-              f"AABB.distance is not norm(max(mini - {pt}, {pt} - maxi, 0)) (operands of the maximum: {leaves_src})",
-              "the box distance must be a lower bound of the distance to every point of the box and 0 inside it, otherwise both queries prune wrongly",
-              note="clamped component-wise gap")
-    # same default metric for point and box distance, and kd-tree calls do not override it
-    dfn = repo.resolve_func(KD, "distance")
-    if dfn is None or dfn[1] is None:
-        ctx.fail("C11-D1", ctx.site(KD, "KDTree.query"), "`distance` used by the k-d tree does not resolve to a package function", "")
-        return
-
-    def default_of(f, name):
-        a = f.args
-        names = [x.arg for x in a.args]
-        if name in names:
-            i = names.index(name) - (len(names) - len(a.defaults))
-            if i >= 0:
-                return au.const(a.defaults[i])
-        return None
-    d1, d2 = default_of(fn, "which"), default_of(dfn[1], "which")
-    over = []
-    for q in ("KDTree.query", "KDTree.query_radius"):
-        for c in au.calls(repo.func(KD, q)):
-            if au.call_tail(c) == "distance":
-                is_box = isinstance(c.func, ast.Attribute)
-                if (len(c.args) > (1 if is_box else 2)) or c.keywords:
-                    over.append(au.src(c))
-    ctx.check(d1 is not None and d1 == d2 and not over, "C11-D1", site,
-              f"point distance and box distance do not use the same metric (defaults {d2!r} / {d1!r}, overridden in {over})",
-              "pruning compares a box distance with point distances: they must be measured in the same norm",
-              note=f"same default metric {d1!r}")
+    # public anchors: their disappearance is an analysis error
+    for q in ("KDTree.__init__", "KDTree.query", "KDTree.query_radius"):
+        repo.func(KD, q)
+    repo.func(BOX, "AABB.distance")
+    root_id = guarded(ctx, "C11-I1", KD, "KDTree.__init__", hg_kd_build.analyse, None)
+    guarded(ctx, "C11-I1", KD, "KDTree.is_leaf", hg_kd_misc.is_leaf)
+    guarded(ctx, "C11-K1", KD, "KDTree.query", hg_kd_query.knn, root_id)
+    guarded(ctx, "C11-O1", KD, "KDTree.query_radius", hg_kd_query.radius, root_id)
+    guarded(ctx, "C11-D1", BOX, "AABB.distance", hg_kd_misc.box_distance)
+    guarded(ctx, "C11-Q1", KD, "KDTree.query", heap_q1)
 
 
 # ---------------------------------------------------------------- candidate heap (C11-Q1)
@@ -1324,24 +90,32 @@ def heap_q1(ctx):
     from . import c20
     repo = ctx.repo
     mod = repo.module(KD)
-    fn = repo.func(KD, "KDTree.query")
-    site = ctx.site(KD, fn)
-    inst = c20.instances(repo, mod, fn, PQM, "PriorityQueue")
-    if len(inst) != 1:
-        ctx.fail("C11-Q1", site, "the candidate heap of query is not one instance of mouette.utils.PriorityQueue",
-                 f"{len(inst)} PriorityQueue() instances resolved to utils/priority_queue.py; the heap discipline of another container is not decided")
-        return
-    recv = inst[0][0]
+    cls = repo.cls(KD, "KDTree")
     hm, hn = U.module_aliases(mod.tree, "heapq")
-    bad = set()
-    for n in au.walk(fn):
-        if isinstance(n, ast.Attribute) and au.src(n.value) == recv:
-            if n.attr == "data":
-                v = c20.classify_data_use(n, hm, hn, False)
-                if v is not None:
-                    bad.add(f"{recv}.data: {v}")
-            elif n.attr not in QUEUE_API:
-                bad.add(f"{recv}.{n.attr}")
-    ctx.check(not bad, "C11-Q1", site, f"query manipulates its candidate heap outside the queue interface ({'; '.join(sorted(bad))})",
-              "only push / pop keep the furthest candidate at the front", note=f"{recv} used through push/pop/front only")
+    n_inst = 0
+    for st in cls.body:
+        if not isinstance(st, ast.FunctionDef):
+            continue
+        for recv, node in c20.instances(repo, mod, st, PQM, "PriorityQueue"):
+            n_inst += 1
+            bad, odd = set(), set()
+            members = {m.name for m in repo.cls(PQM, "PriorityQueue").body if isinstance(m, ast.FunctionDef)}
+            scope = [st] if not recv.startswith("self.") else [s for s in cls.body if isinstance(s, ast.FunctionDef)]
+            for f in scope:
+                for n in au.walk(f):
+                    if isinstance(n, ast.Attribute) and au.src(n.value) == recv:
+                        if n.attr == "data":
+                            v = c20.classify_data_use(n, hm, hn, False)
+                            if v is not None:
+                                bad.add(f"heap list {v}")
+                        elif n.attr not in QUEUE_API and n.attr not in members:
+                            odd.add(n.attr)
+            if odd and not bad:
+                ctx.undecided("C11-Q1", ctx.site(KD, st), f"the k-d tree reads attributes of its candidate heap that PriorityQueue does not define ({sorted(odd)})")
+                continue
+            ctx.check(not bad, "C11-Q1", ctx.site(KD, st), f"the k-d tree manipulates its candidate heap outside the queue interface ({'; '.join(sorted(bad))})",
+                      "only push / pop keep the furthest candidate at the front", note="candidate heap used through push/pop/front only")
+    if n_inst == 0:
+        ctx.undecided("C11-Q1", ctx.site(KD, "KDTree.query"), "no mouette.utils.PriorityQueue is created by the k-d tree",
+                      "the heap discipline of another container is not decided")
     c20.q1_queue(ctx, rule="C11-Q1", with_empty=False)
